@@ -498,10 +498,10 @@ class NB:
         self.extra_outputs = getattr(self, "extra_outputs", []) + outs[1:]
         return outs[0]
 
-    def quantize(self, x):
+    def quantize(self, x, to=None):
         d, st = self.draw, self.st
         X = self.info(x)
-        dt2 = d(st.sampled_from([X["dtype"], X["dtype"], "int8", "uint8", "int16"]))
+        dt2 = to if to is not None else d(st.sampled_from([X["dtype"], X["dtype"], "int8", "uint8", "int16"]))
         if {X["dtype"], dt2} == {"uint8", "int16"}:
             dt2 = X["dtype"]
         o = self.out("quantize", X["shape"], dt2, self.quant(dt2))
@@ -735,6 +735,34 @@ def network(profile="exact", max_ops=6, dtypes=("int8", "int8", "int8", "uint8",
             if not ends:
                 ends.append(nb.unary(x, "RELU", same_q=True))
             return dict(tensors=nb.tensors, ops=nb.ops, inputs=nb.inputs, outputs=ends)
+        if profile == "lutmix":
+            # tables of different sizes sharing the SHRAM table area inside one NPU subgraph: a run of 8-bit table activations (256-byte tables; TANH and LOGISTIC have fixed output
+            # quantisations, so alternating them repeats tables), then one operator with a large table (int8 SOFTMAX: 1 KB; int16 EXP/LOG/SQRT/GELU between two QUANTIZE
+            # operators: 2 KB), then 8-bit activations again that re-use tables loaded before the large one
+            small = ["tanh", "logistic"]
+            def run8(t, n, first):
+                for j in range(n):
+                    k = small[(first + j) % 2]
+                    if draw(st.integers(0, 7)) == 0:
+                        k = draw(st.sampled_from(["hswish", "lrelu"]))
+                    t = nb.act_lut(t, {"logistic": "LOGISTIC", "tanh": "TANH", "hswish": "HARD_SWISH", "lrelu": "LEAKY_RELU"}[k])
+                return t
+            if dt == "int16":
+                dt8 = draw(st.sampled_from(["int8", "int8", "uint8"]))
+                cur = nb.quantize(cur, to=dt8 if dt8 == "int8" else "int8")
+            dt8 = nb.info(cur)["dtype"]
+            first = draw(st.integers(0, 1))
+            cur = run8(cur, draw(st.integers(2, 4)), first)
+            for rep in range(draw(st.integers(1, 2))):
+                big = draw(st.sampled_from(["softmax", "lut16", "lut16"])) if dt8 == "int8" else "softmax"
+                if big == "softmax":
+                    cur = nb.softmax(cur)
+                else:
+                    cur = nb.quantize(cur, to="int16")
+                    cur = nb.lut_unary(cur, draw(st.sampled_from(["EXP", "LOG", "SQRT", "GELU"])))
+                    cur = nb.quantize(cur, to="int8")
+                cur = run8(cur, draw(st.integers(2, 4)), draw(st.integers(0, 1)))
+            return dict(tensors=nb.tensors, ops=nb.ops, inputs=nb.inputs, outputs=[cur])
         approx_tail = None
         if profile == "approx":  # exact-class body, one approximate-class operator in tail position (only memory-only operators may follow)
             menu = list(EXACT_OPS)
